@@ -1,3 +1,4 @@
+from vlib.props import pcommon
 from vlib.props import glr_props, lr_props
 
 
@@ -5,3 +6,10 @@ def check(run, only=None):
     if only in (None, "B"):
         run.add_bounded(glr_props.run_bounded("C10", run.tier))
         run.add_bounded(lr_props.run_bounded("C10", run.tier))
+    if only in (None, "P"):
+        from vlib.companions import parserfuncs as pf
+        import contracts.errors as ce
+        pcommon.add_proof(run, "C10", ce.ERRORS_C10, [pf.run_errors],
+                          "pos_to_line_col (line = 1 + newlines before, column = distance to the line start), "
+                          "get_line_col_at_position never raises for pos >= 0 and locates every in-range position, "
+                          "Location.is_eof iff position == len(input), ErrorContext span = [position, position]")
